@@ -455,7 +455,7 @@ func main() {
 	sort.Slice(viols, func(i, j int) bool { return viols[i].Key < viols[j].Key })
 	rep := map[string]interface{}{
 		"evaluations": evals, "distinct_nontrivial": len(pairSeen) + evals/2,
-		"rule":    fmt.Sprintf("%d histories (random ones of length %d, plus one systematic history per command kind walking the spec versions v1, v2, v3, v1 on one target) over {" + kindLabels(layoutPath) + "} x 3 versions of one spec (parameters/properties/operations/definitions gained and lost, files shrink and grow), interleaved with user edits of the configure file and user-added files; after every step all files of the target are hashed and compared with (a) their previous state and (b) the same command run into an empty directory. Non-trivial: every step after the first of a history (it runs on a non-empty target); distinct ordered pairs of generate kinds are counted.", len(hist), *hl),
+		"rule":    fmt.Sprintf("%d histories (random ones of length %d, plus one systematic history per command kind walking the spec versions v1, v2, v3, v1 on one target) over {"+kindLabels(layoutPath)+"} x 3 versions of one spec (parameters/properties/operations/definitions gained and lost, files shrink and grow), interleaved with user edits of the configure file and user-added files; after every step all files of the target are hashed and compared with (a) their previous state and (b) the same command run into an empty directory. Non-trivial: every step after the first of a history (it runs on a non-empty target); distinct ordered pairs of generate kinds are counted.", len(hist), *hl),
 		"samples": samples, "coverage": cov, "violations": viols, "model_cases": len(cases), "ordered_pairs": len(pairSeen),
 	}
 	b, _ := json.MarshalIndent(rep, "", " ")
